@@ -14,7 +14,9 @@ Conventions
 """
 import os, re, sys
 
-NMAX = os.environ.get("VF_NMAX", "1000000")
+NMAX = os.environ.get("VF_NMAX", "1000000")      # cap on the ghost length of ranges that are only read
+NMAXW = os.environ.get("VF_NMAXW", "10000")      # cap for ranges that are written: cbmc --trace (always on in the engine, and VF_REACH
+                                                 # fails by design) enumerates a havocked array element-wise: 10^4 -> 15 s, 10^5 -> 10 min+
 I = "sizeof(int)"
 
 
@@ -159,7 +161,7 @@ counter("etl::count_if<int *, vf::pred3>", "etl_count_if", P3)
 def xrng(f="first", l="last", n="vf_n", off="0"):
     """requires: [f,l) = elements off .. off+n of a fresh array of off+n ints"""
     return "vf_k <= %s && %s <= %s && %s <= %s && FRESH(%s.base, (%s + %s) * %s) && %s.i == (long)(%s) && __CPROVER_pointer_equals(%s.base, %s.base) && %s.i == (long)(%s + %s)" % (
-        n, n, NMAX, off, NMAX, f, off, n, I, f, off, l, f, l, off, n)
+        n, n, NMAXW, off, NMAXW, f, off, n, I, f, off, l, f, l, off, n)
 
 
 def xbuf(d, n="vf_n"):
@@ -213,7 +215,7 @@ fn("etl::move<vf::idx<int>, vf::idx<int>>", "etl_move", [R(xrng(off="vf_m")),
 # of A itself (vf_m >= 1: the destination lies behind the source, the overlap direction [alg.copy]/[alg.move] permit)
 def backward(name, alias, dl):
     fn(name, alias, [
-       R("vf_k <= vf_n && vf_n <= %s && vf_m <= %s && FRESH(first.base, (vf_m + vf_n) * %s) && first.i == 0 && __CPROVER_pointer_equals(last.base, first.base) && last.i == (long)vf_n" % (NMAX, NMAX, I)),
+       R("vf_k <= vf_n && vf_n <= %s && vf_m <= %s && FRESH(first.base, (vf_m + vf_n) * %s) && first.i == 0 && __CPROVER_pointer_equals(last.base, first.base) && last.i == (long)vf_n" % (NMAXW, NMAXW, I)),
        R("vf_ov ? (__CPROVER_pointer_equals(%s.base, first.base) && vf_m >= 1) : FRESH(%s.base, (vf_m + vf_n) * %s)" % (dl, dl, I)),
        R("%s.i == (long)(vf_m + vf_n)" % dl),
        E(xat("RET", "OLD(%s.base)" % dl, "vf_m")),
@@ -231,7 +233,7 @@ backward("etl::move_backward<vf::idx<int>, vf::idx<int>>", "etl_move_backward", 
 
 # copy_n: as copy without overlap; count == vf_n, or count <= 0 and nothing is copied
 fn("etl::copy_n<vf::idx<int>, long, vf::idx<int>>", "etl_copy_n", [
-   R("vf_k <= vf_n && vf_n <= %s && FRESH(first.base, vf_n * %s) && first.i == 0 && %s" % (NMAX, I, xbuf("result"))),
+   R("vf_k <= vf_n && vf_n <= %s && FRESH(first.base, vf_n * %s) && first.i == 0 && %s" % (NMAXW, I, xbuf("result"))),
    R("count > 0 ? count == (long)vf_n : vf_n == 0"),
    E("vf_sel ==> (%s)" % xat("RET", "OLD(result.base)", "vf_n")),
    E("%s ==> OLD(result.base)[vf_k] == OLD(first.base)[vf_k]" % K),
@@ -249,7 +251,7 @@ fn("etl::fill<vf::idx<int>, int>", "etl_fill", [R("FRESH(value, sizeof(int))"), 
    [[A("first.i, " + xupto("first.base")), INV("0 <= first.i && first.i <= last.i"),
      INV("%s ==> first.base[vf_k] == *value" % XK_B), XDEC]])
 fn("etl::fill_n<vf::idx<int>, long, int>", "etl_fill_n", [R("FRESH(value, sizeof(int))"),
-   R("vf_k <= vf_n && vf_n <= %s && FRESH(first.base, vf_n * %s) && first.i == 0" % (NMAX, I)),
+   R("vf_k <= vf_n && vf_n <= %s && FRESH(first.base, vf_n * %s) && first.i == 0" % (NMAXW, I)),
    R("count > 0 ? count == (long)vf_n : vf_n == 0"),
    E(xat("RET", "OLD(first.base)", "vf_n")),
    E("%s ==> OLD(first.base)[vf_k] == *value" % K),
@@ -264,7 +266,7 @@ fn("etl::generate<vf::idx<unsigned int>, vf::gen1>", "etl_generate", [R(xrng()),
    [[A("first.i, g.next, " + xupto("first.base")), INV("0 <= first.i && first.i <= last.i && g.next == ENTRY(g.next) + (unsigned)first.i"),
      INV("%s ==> first.base[vf_k] == ENTRY(g.next) + (unsigned)vf_k" % XK_B), XDEC]])
 fn("etl::generate_n<vf::idx<unsigned int>, long, vf::gen1>", "etl_generate_n", [
-   R("vf_k <= vf_n && vf_n <= %s && FRESH(first.base, vf_n * %s) && first.i == 0" % (NMAX, I)),
+   R("vf_k <= vf_n && vf_n <= %s && FRESH(first.base, vf_n * %s) && first.i == 0" % (NMAXW, I)),
    R("count > 0 ? count == (long)vf_n : vf_n == 0"),
    E(xat("RET", "OLD(first.base)", "vf_n")),
    E("%s ==> OLD(first.base)[vf_k] == OLD(g.next) + (unsigned)vf_k" % K),
@@ -637,22 +639,23 @@ sorted_until("etl::is_sorted_until<int *, etl::greater<>>", None, "etl_is_sorted
 fn("etl::is_sorted<int *>", "etl_is_sorted", [R(rng()),
    E("(RET && vf_k + 1 < vf_n) ==> !(OLD(first)[vf_k + 1] < OLD(first)[vf_k])"),
    E("vf_n <= 1 ==> RET"),
-   E("(vf_n >= 2 && OLD(first)[1] < OLD(first)[0]) ==> !RET"),
    A()])
 
-# is_partitioned: true => no element satisfying p follows one that does not (ghosts vf_j < vf_k)
-fn("etl::is_partitioned<int *, vf::pred3>", "etl_is_partitioned", [R(rng()),
-   E("(RET && vf_j < vf_k && vf_k < vf_n && %s) ==> %s" % (P3("OLD(first)[vf_k]"), P3("OLD(first)[vf_j]"))),
+# is_partitioned: true => no element satisfying p follows one that does not (ghosts vf_j < vf_k).  Index iterators (the raw pointer
+# version did not finish in 150 s).
+XJ_B = "(vf_j < vf_n && (long)vf_j < first.i)"
+fn("etl::is_partitioned<vf::idx<int>, vf::pred3>", "etl_is_partitioned", [R(xrng()), R("vf_j <= vf_n"),
+   E("(RET && vf_j < vf_k && vf_k < vf_n && %s) ==> %s" % (P3("OLD(first.base)[vf_k]"), P3("OLD(first.base)[vf_j]"))),
    E("vf_n <= 1 ==> RET"),
    A()],
-   [[A("first"), INV(linv()),
-     INV("%s ==> %s" % (KB, P3(EF + "[vf_k]"))),
-     INV("(vf_j < vf_n && %s + vf_j < first) ==> %s" % (EF, P3(EF + "[vf_j]"))), DECR],
-    [A("first"), INV(linv()), INV(pin("first", BOFF, "OFF(last)")),
-     INV("(%s && %s + vf_k < ENTRY(first)) ==> %s" % (K, BASE, P3(BASE + "[vf_k]"))),
-     INV("(vf_j < vf_n && %s + vf_j < ENTRY(first)) ==> %s" % (BASE, P3(BASE + "[vf_j]"))),
-     INV("(%s && %s + vf_k >= ENTRY(first) && %s + vf_k < first) ==> !%s" % (K, BASE, BASE, P3(BASE + "[vf_k]"))),
-     DECR]])
+   [[A("first.i"), INV("0 <= first.i && first.i <= last.i"),
+     INV("%s ==> %s" % (XK_B, P3("first.base[vf_k]"))),
+     INV("%s ==> %s" % (XJ_B, P3("first.base[vf_j]"))), XDEC],
+    [A("first.i"), INV("0 <= ENTRY(first.i) && ENTRY(first.i) <= first.i && first.i <= last.i"),
+     INV("(%s && (long)vf_k < ENTRY(first.i)) ==> %s" % (K, P3("first.base[vf_k]"))),
+     INV("(vf_j < vf_n && (long)vf_j < ENTRY(first.i)) ==> %s" % P3("first.base[vf_j]")),
+     INV("(%s && (long)vf_k >= ENTRY(first.i) && (long)vf_k < first.i) ==> !%s" % (K, P3("first.base[vf_k]"))),
+     XDEC]])
 
 # partition_point: first element not satisfying p; given that the range is partitioned (instance for the ghosts vf_j < vf_k), no
 # element from the result on satisfies p
@@ -716,6 +719,32 @@ fn("etl::equal_range<vf::gix<int, 0>, int, etl::less<>>", "etl_equal_range", [R(
    E("%s ==> RET.first.i == (long)vf_p" % HYP.replace("RET.i", "RET.first.i")),
    E("%s ==> RET.second.i == (long)vf_q" % HYP.replace("RET.i", "RET.second.i")),
    A()])
+
+# ---------------------------------------------------------------------------------------------------------------------
+# accumulate / inner_product / reduce over unsigned (wrap-around arithmetic: signed overflow would be UB for any unconstrained element).
+# The VALUE of a fold is a recursive function of the whole range, which a ghost index cannot express: the contracts prove safety,
+# termination, the frame (nothing written) and the result for ranges of length 0 and 1; the bounded stand-ins check the value.
+def fold(name, alias, step0, loop_in=None, loopvars="first, init", extra_req=(), f="first", l="last"):
+    cl = [R(x) for x in extra_req] + [R(rng(f, l)),
+          E("vf_n == 0 ==> RET == OLD(init)"),
+          ] + ([E("vf_n == 1 ==> RET == %s" % step0("OLD(init)", "OLD(%s)" % f))] if step0 else []) + [A()]
+    loop = [[A(loopvars), INV(linv(f, l))] + ([INV(lock("first2", "first1"))] if "first2" in loopvars else []) +
+            [INV(("(%s == ENTRY(%s) ==> init == ENTRY(init))" % (f, f)) + ((" && (OFF(%s) == OFF(ENTRY(%s)) + %s ==> init == %s)" % (f, f, I, step0("ENTRY(init)", "ENTRY(%s)" % f))) if step0 else "")),
+             DEC("OFF(%s) - OFF(%s)" % (l, f))]]
+    if loop_in:
+        fn(name, alias, cl)
+        fn(loop_in, alias + "_op", [], loop)
+    else:
+        fn(name, alias, cl, loop)
+
+
+fold("etl::accumulate<unsigned int *, unsigned int>", "etl_accumulate", lambda i, p: "%s + %s[0]" % (i, p))
+fold("etl::accumulate<int *, int, vf::op2>", "etl_accumulate_op", lambda i, p: OP2(i, "%s[0]" % p))
+# (inner_product: the length-1 value is left to the stand-in as well -- equating two 32-bit multipliers did not finish)
+fold("etl::inner_product<unsigned int *, unsigned int *, unsigned int>", "etl_inner_product", None,
+     loopvars="first1, first2, init", extra_req=[buf("first2")], f="first1", l="last1")
+fold("etl::reduce<unsigned int *, unsigned int>", "etl_reduce", lambda i, p: "%s + %s[0]" % (i, p), loop_in="etl::accumulate<unsigned int *, unsigned int, etl::plus<>>")
+fn("etl::reduce<unsigned int *>", "etl_reduce0", [R(rng()), E("vf_n == 0 ==> RET == 0"), E("vf_n == 1 ==> RET == OLD(first)[0]"), A()])
 # ===== END CONTRACTS =====
 
 hdr = ["# generated by fam/algo/mkspec.py -- edit that file and re-run it",
